@@ -13,12 +13,57 @@ def c03(res, tier, seed):
     else:
         jobs += K("c03_unarmor_n16", ALL, timeout=900) + K("c03_unarmor_n32", ALL, timeout=2700)
     run_kani_jobs(res, jobs)
-    res.assumptions += ["input length n <= %d armored characters (all 256 byte values at every position, fill 0..=5); longer strings "
-                        "are outside the claim (the period-4 argument is not machine-checked)" % (16 if tier == "quick" else 32)]
-    return {"functions_encoded": ["ais::messages::unarmor (compiled, incl. Vec / heapless::Vec)"],
-            "bounds": {"n_max": 16 if tier == "quick" else 32, "fill": "0..=5", "unwind": "n_max+2, unwinding assertions on"},
-            "technique": "Kani/CBMC bounded model checking of unarmor against a bit-window reference (SAT, CaDiCaL)",
-            "trusted": KANI_TRUSTED}
+    # engine M, layer U: the loop of unarmor cut at its header (base / step / exit of a loop invariant): strings of any length
+    import mu
+    from kflow import write_replay
+    from mir.parse import Unsupported
+    any_len = {}
+    for cfg in (("std", "none") if tier == "quick" else ALL):
+        try:
+            okc, findings, syms = mu.check(res, cfg, timeout_s=300 if tier == "quick" else 1200)
+        except Unsupported as e:
+            any_len[cfg] = "not established: engine M could not encode unarmor: %s" % str(e)[:300]
+            continue
+        if okc:
+            any_len[cfg] = "established"
+            continue
+        conf = mu.confirm(res, cfg, findings, syms)
+        if conf:
+            seen = set()
+            for cf in conf:
+                if cf["query"] in seen:
+                    continue
+                seen.add(cf["query"])
+                rec = {"property": "C03", "engine": "M", "query": cf["query"] + "[%s]" % cfg, "cfg": cfg, "call": "ais::messages::unarmor(data, fill)",
+                       "data_hex": cf["data"].hex(), "fill": cf["fill"], "length": cf["length"], "real_result": cf["got"], "specified_result": cf["want"]}
+                path = write_replay("C03", rec)
+                res.violations.append({"what": "unarmor[%s]: %d characters, fill %d: real code gives %s, the specification %s (found from the %s query)" % (
+                    cfg, cf["length"], cf["fill"], _short(cf["got"]), _short(cf["want"]), cf["query"]), "replay": path})
+            any_len[cfg] = "violated (confirmed natively)"
+        else:
+            # a step / exit counterexample may start in an unreachable state: without a confirmed string nothing is reported; the
+            # bounded Kani verdict above stands and the claim for longer strings is simply not made for this configuration
+            any_len[cfg] = "not established: %s; no string built from the models disagrees with the specification natively" % \
+                ", ".join("%s: %s" % (q, r) for q, m, r in findings[:4])
+    res.extra["unarmor_any_length_verdict"] = any_len
+    nmax = 16 if tier == "quick" else 32
+    res.assumptions += ["Kani part: input length n <= %d armored characters (all 256 byte values at every position, fill 0..=5)" % nmax,
+                        "engine M part: any length n <= 2^32 (usize arithmetic on 6n cannot wrap below that), fill 0..=5, by a loop invariant "
+                        "(base, one arbitrary iteration, exit) over the function's MIR; the invariant templates (scalars linear in the "
+                        "iteration count, output = specification of the prefix, rest zero) are checked, not assumed; where they do not fit "
+                        "an implementation the verdict for longer strings is 'not established' and only the Kani bound is claimed: %s" % any_len,
+                        "library calls of unarmor summarised: vec![0; n], heapless Vec::resize (Err iff n > capacity), index / index_mut "
+                        "(bounds-checked), slice iteration, &u8 - u8 (overflow-checked), cmp::min, format! (opaque)"]
+    return {"functions_encoded": ["ais::messages::unarmor (compiled, incl. Vec / heapless::Vec; and from its MIR, loop cut at the header)"],
+            "bounds": {"n_max_kani": nmax, "n_max_engine_M": "2^32 (no unrolling)", "fill": "0..=5", "unwind": "n_max+2, unwinding assertions on"},
+            "technique": "Kani/CBMC bounded model checking of unarmor against a bit-window reference (SAT, CaDiCaL) + SMT (z3, QF_ABV) loop-invariant "
+                         "queries over the function's MIR with Skolemised bit positions, counterexamples replayed natively",
+            "trusted": KANI_TRUSTED + ["engine M: the MIR parser/executor and the summaries of the library calls listed under assumptions"]}
+
+
+def _short(x):
+    x = "error" if x is None else str(x)
+    return x if len(x) <= 40 else x[:18] + ".." + x[-18:]
 
 
 C04_PLAIN = ["c04_t01", "c04_t04", "c04_t11", "c04_t06", "c04_t07_n1", "c04_t07_n2", "c04_t07_n3", "c04_t07_n4",
@@ -213,7 +258,9 @@ def c01_kani_jobs(tier):
         for h in C01_FIX_P + C01_FIX_T + C01_LEN_P + C01_LEN_T + ["c01_long_t14", "c01_long_t12"]:
             jobs += K(h, ALL, timeout=2700)
         jobs += K("c01_text_t14_k04", ALL, timeout=2700)
-        jobs += K("c01_text_t14_k21", ALL, timeout=2700, mem_gb=24) + K("c01_text_t12_k21", ("none",), timeout=2700)
+        # (the real 21-character text decode in the std / alloc builds exhausts 24 GB: it stays with the no-allocator build, where the
+        #  capacity error ends it early; std / alloc texts are C13's subject at <= 20 characters)
+        jobs += K("c01_text_t14_k21", ("none",), timeout=2700) + K("c01_text_t12_k21", ("none",), timeout=2700)
     return jobs
 
 
